@@ -5,7 +5,67 @@ import os
 
 HERE = os.path.dirname(os.path.dirname(os.path.abspath(__file__)))
 
+SEQ_NOTE = ('contents are identified with keys (no hash collisions assumed); bytes, digests and inflation are established by the '
+            'projection (sqlite3 + zlib + hashlib only) and enter the traces as tags; model drift (a trace DosSeq cannot '
+            'follow) is reported but never counted as a violation; SQLite atomic commit / WAL snapshot isolation trusted.')
+SEQ_TECH = ('TLA+ design model DosSeq model-checked with TLC; histories (random + TLC-simulated behaviours) executed on the '
+            'real library and validated by TLC: property predicates as invariants on every recorded state (monitor) and '
+            'step-by-step conformance to DosSeq')
+
 CHECKS = {
+    'C02': {
+        'category': 'model_checking',
+        'text': 'DosSeq (call-level design model with the L2 key->content map as ghost) is checked exhaustively by TLC '
+                '(Refines, ViewsEqualMap, ListEqualsMap). Random and TLC-simulated histories over all public calls are run on '
+                'the real library; after every call the raw projection, all views of a fresh handle and the call result are '
+                'recorded and TLC evaluates C02_Views / C02_Result in every state; conformance of every trace to DosSeq.',
+        'design_ref': 'DESIGN.md section 6 C02', 'note': SEQ_NOTE, 'technique': SEQ_TECH,
+    },
+    'C03': {
+        'category': 'model_checking',
+        'text': 'IndexOK (rows inside existing packs, disjoint, unique keys, designated range is exactly the object, plain '
+                'size = length, loose files named by digest) is an invariant of DosSeq (TLC, exhaustive) and of every state of '
+                'every recorded history, evaluated on a projection that uses sqlite3/zlib/hashlib only; the documented manual '
+                'recovery recipe is executed for every key after every step.',
+        'design_ref': 'DESIGN.md section 6 C03', 'note': SEQ_NOTE, 'technique': SEQ_TECH,
+    },
+    'C04': {
+        'category': 'model_checking',
+        'text': 'Deterministic scheduler (greenlets; every shared-state file-system call and SQL statement of the real library is '
+                'a yield point). All placements of a packer prefix inside a reader/writer and vice versa (forms A/B, exhaustive '
+                'in both positions), sampled 3-segment and 3-actor schedules, for 12 reader/writer kinds x packer variants. TLC '
+                'evaluates ReadCorrect / WriteKeyCorrect / NoUnexpectedFailure / FinalStateOK (ConcTrace.tla) on every distinct '
+                'logical trace.',
+        'design_ref': 'DESIGN.md section 6 C04',
+        'note': 'granularity = Python-level I/O calls and SQL statements (steps inside SQLite are atomic); single process, one '
+                'connection per actor; schedules with more than 3 context switches are only sampled.',
+        'technique': 'systematic schedule enumeration on the real code under an interposition scheduler; recorded traces '
+                     'validated by TLC against the TLA+ monitor ConcTrace',
+    },
+    'C05': {
+        'category': 'model_checking',
+        'text': 'For 39 operation scenarios the folder is snapshotted before every kernel-level I/O call (raw write, truncate, '
+                'fsync, rename/replace/link/unlink/mkdir, open-for-write, close, SQL statement, COMMIT) plus torn-write images; '
+                'each image is projected raw and read through a fresh handle; TLC evaluates Recoverable / NoTornObject / '
+                'ReadsSafe (CrashTrace.tla) on every image.',
+        'design_ref': 'DESIGN.md section 6 C05',
+        'note': 'a copy of the folder taken before call k is exactly what a kill at that boundary leaves (user-space buffers are '
+                'not on disk); SQLite recovery of the copied WAL trusted; scenarios enumerate operation kinds and parameter '
+                'variants, not all pre-states.',
+        'technique': 'exhaustive crash-point enumeration on the real code via interposition; images validated by TLC against the '
+                     'TLA+ monitor CrashTrace',
+    },
+    'C06': {
+        'category': 'model_checking',
+        'text': 'Same enumeration as C05 with the power-loss image: every regular non-SQLite file keeps only the bytes present at '
+                'its last fsync (pre-existing content counts as synced, never-synced files are empty), names and committed '
+                'index transactions survive. TLC evaluates DurableVisible / NoTornObject / ReadsSafe on every image.',
+        'design_ref': 'DESIGN.md section 6 C06',
+        'note': 'the fault model is the one stated by the property; fsync calls are observed per inode by the shim; default '
+                'fsync settings only.',
+        'technique': 'exhaustive crash-point enumeration with an fsync-shadow power-loss model; images validated by TLC against '
+                     'CrashTrace',
+    },
     'C07': {
         'category': 'model_checking',
         'text': 'TLC explores Stream.tla (reference semantics of read/seek/tell incl. the allowed outcomes of out-of-range '
@@ -18,6 +78,81 @@ CHECKS = {
                 'same oracle.',
         'technique': 'TLA+ spec (Stream.tla) model-checked with TLC; TLC state graph replayed into the implementation '
                      '(spec -> code conformance)',
+    },
+    'C08': {
+        'category': 'model_checking',
+        'text': 'MC_Multi (DosSeq with three handles, pinned WAL snapshots per handle) is checked exhaustively to depth 7 by TLC '
+                '(ViewsEqualMap, ListEqualsMap for every handle). Multi-handle histories (random and TLC-simulated) run on the '
+                'real library with view calls through long-open handles as explicit steps; TLC evaluates C08_HandleViews on '
+                'every recorded state and checks conformance to the model.',
+        'design_ref': 'DESIGN.md section 6 C08', 'note': SEQ_NOTE, 'technique': SEQ_TECH,
+    },
+    'C09': {
+        'category': 'model_checking',
+        'text': 'Dedup / NoHolesPost / KnownNoGrowth / ImportKnownNotWritten are invariants of DosSeq (TLC) and of every state of '
+                'recorded histories biased towards recurring contents (within a batch, across batches, loose/packed forms, '
+                'no_holes x read_twice x compress).',
+        'design_ref': 'DESIGN.md section 6 C09', 'note': SEQ_NOTE, 'technique': SEQ_TECH,
+    },
+    'C10': {
+        'category': 'model_checking',
+        'text': 'PackModeHonoured / RepackModeHonoured / sizes / TotalsAreSums / transparency are evaluated by TLC on every state '
+                'of histories biased towards pack/repack chains over all CompressModes and zlib levels 1..9; the design model '
+                'transcribes should_compress for packed sources.',
+        'design_ref': 'DESIGN.md section 6 C10', 'note': SEQ_NOTE, 'technique': SEQ_TECH,
+    },
+    'C11': {
+        'category': 'model_checking',
+        'text': 'DeleteExact and RepackCompact are action properties of DosSeq (TLC) and invariants of every recorded delete / '
+                'repack step of histories biased towards deletions followed by repacks.',
+        'design_ref': 'DESIGN.md section 6 C11', 'note': SEQ_NOTE, 'technique': SEQ_TECH,
+    },
+    'C12': {
+        'category': 'model_checking',
+        'text': '(i) validate() is recorded after every step of every history and must be clean (C12_ValidateClean). (ii) every '
+                'single damage (a bit of each byte of each loose file and each referenced pack byte, truncations, +-1/flip on '
+                'every field of every index row) is applied to a copy of a container; ground truth from the raw projection; '
+                'TLC evaluates NeverCleanOnDamage (DamageTrace.tla) on every line.',
+        'design_ref': 'DESIGN.md section 6 C12',
+        'note': 'quick flips one random bit per byte, thorough all 8; the quantification over bit positions is input '
+                'enumeration by the harness, the specification contributes the classification and the oracle rule.',
+        'technique': 'recorded validate() outcomes checked by TLC against TLA+ monitors (SeqTrace, DamageTrace); damage '
+                     'enumeration by the harness',
+    },
+    'C13': {
+        'category': 'model_checking',
+        'text': 'AppendOnly / OnlyLastPackGrows (action properties) and PackNumbering (invariant) of DosSeq are checked by TLC; '
+                'on recorded histories without repack (small pack targets, re-opened handles) TLC evaluates the same predicates '
+                'on byte-level before/after facts of every pack file.',
+        'design_ref': 'DESIGN.md section 6 C13', 'note': SEQ_NOTE, 'technique': SEQ_TECH,
+    },
+    'C14': {
+        'category': 'model_checking',
+        'text': 'Import lattice (source forms, requested sets with absent and repeated keys, hash pairs, compress, budgets hitting '
+                'the three cache branches, iterable kinds, callback, destination pre-content and pack target) as histories; TLC '
+                'evaluates C14_ImportExact on every import step and conformance to DosSeq.Import.',
+        'design_ref': 'DESIGN.md section 6 C14', 'note': SEQ_NOTE, 'technique': SEQ_TECH,
+    },
+    'C16': {
+        'category': 'model_checking',
+        'text': 'Merge.tla (transcription of detect_where_sorted) is model-checked for all pairs of sorted unique sequences over '
+                '1..5 and all pairs of sequences of length <= 3 over 1..3; every terminal state of the TLC graph is replayed on '
+                'the real helper. Bulk calls under default and lowered thresholds are recorded and TLC evaluates '
+                'BulkIsPointwise / EachKeyOnce / FlagsPositional / SameOutcome (BulkTrace.tla).',
+        'design_ref': 'DESIGN.md section 6 C16',
+        'note': 'thresholds are class attributes lowered from the harness; the real 950 threshold is crossed once (thorough: 9500).',
+        'technique': 'TLA+ transcription model-checked with TLC and replayed into the code; recorded bulk calls validated by TLC',
+    },
+    'C17': {
+        'category': 'model_checking',
+        'text': 'For each scenario every I/O-relevant call (open, raw write, truncate, fsync, rename/replace/link/unlink/mkdir, '
+                'SQL statement, COMMIT) fails once; outcome, raw projection, fresh-handle reads and the rerun through a new '
+                'handle are recorded; TLC evaluates CompletesOrRaises / StoreIntact / ReadsSafe / RerunOK on every fault point.',
+        'design_ref': 'DESIGN.md section 6 C17',
+        'note': 'faults are injected at the Python call boundary (OSError EIO / OperationalError); single-fault sequences only, '
+                'as the property states.',
+        'technique': 'exhaustive single-fault enumeration on the real code via interposition; outcomes validated by TLC against '
+                     'the TLA+ monitor CrashTrace',
     },
 }
 
